@@ -142,7 +142,7 @@ KeptBy(e) ==
     UNION {SeqRange(e.outs[i].items) : i \in DOMAIN e.outs} \cup SeqRange(e.vals) \cup SeqRange(e.recv)
 
 SrcKindOK(name, kinds) ==
-    CASE name \in IterOps \cup {"iter_fold", "iter_rfold", "iter_clone"} -> kinds[1] = "iter"
+    CASE name \in IterOps \cup {"iter_fold", "iter_rfold", "iter_clone", "collect_iter"} -> kinds[1] = "iter"
       [] name \in {"append", "prepend", "pop_back", "pop_front", "split", "remove", "swap_remove",
                    "unflatten", "into_array", "into_native", "into_tuple", "into_iter", "box_new",
                    "vec_from_arr", "bslice_from_arr"} -> kinds[1] = "arr"
